@@ -13,7 +13,9 @@ RECV = ["a", "str", "'lit'", "f()", "o.p", "(a)", "[a, b]", "m", "this", "`t${a}
 TARGETS = ["x", "o.p", "o[k]", "o[f()]", "f().p", "o.p.q", "arr[i++]", "this.v", "m.p", "o[a + b]", "o[-k]", "o[+k]", "(o[-k])", "o[`${k}`]", "o[k ? 'a' : 'b']",
            "o[k.p]", "o[typeof k]", "o[!k]", "o[~k]", "o[k - 1]", "o[(k, 1)]", "o[k?.p]", "o.p[-k]", "o[k][-i]", "o[-1]", "o[m]", "o[-m]", "o[m.p]",
            # both the object and the computed key have effects: their order is visible
-           "f()[g(a)]", "o.p[f()]", "g(a)[k + 1]", "f()[m.p]", "m.p[f()]", "o.q.r[g(b)]", "f()[g(a)].p", "f().p[g(a)]", "(a, o)[f()]", "o[f()][g(a)]"]
+           "f()[g(a)]", "o.p[f()]", "g(a)[k + 1]", "f()[m.p]", "m.p[f()]", "o.q.r[g(b)]", "f()[g(a)].p", "f().p[g(a)]", "(a, o)[f()]", "o[f()][g(a)]",
+           # an instrumented operation in the key of a link that is not the last one
+           "o[a + b].p", "o[k + 1].p.q", "o[`${k}`].p", "o[a + b][k + 1]", "o.p[str.concat(a)].q", "this[a + b].v", "o[f.str().trim()][i]"]
 ARRS = ["[a, b]", "[]", "[a, , b]", "[...r]", "[a, ...r]", "[[x, y], z]", "[f(), g()]", "arr", "...r", "[m, a]"]
 
 
@@ -41,6 +43,10 @@ def expr(rng, d=0):
         lambda: "aloneMethod(%s)" % rng.choice(ARGS),
         lambda: "%s.trim(%s).concat(%s)" % (par(rng.choice(RECV)), rng.choice(ARGS[:3]), rng.choice(ARGS)),
         lambda: "delete o[%s]" % sub(),
+        # delete of an optional chain with an instrumentable call inside: the operand must stay a reference
+        lambda: "delete %s?.%s(%s).p" % (rng.choice(["o", "m", "f"]), rng.choice(METHODS), rng.choice(ARGS)),
+        lambda: "delete o?.p.%s(%s)[%s]" % (rng.choice(METHODS), rng.choice(ARGS), rng.choice(["'q'", "k", sub()])),
+        lambda: "delete o.p?.[%s]" % sub(),
         lambda: "((p = %s) => p + %s)()" % (sub(), sub()),
         lambda: "(function (n, d = n + %s) { return d; })(%s)" % (sub(), sub()),
         lambda: "[%s, ...%s]" % (sub(), par(sub())),
